@@ -68,6 +68,9 @@ pub struct Mons {
     pub c11: bool,
     pub c13: bool,
     pub c19: bool,
+    pub c12: bool,
+    pub c15: bool,
+    pub c16: bool,
 }
 
 #[derive(Clone, Debug, PartialEq, Eq, Hash)]
@@ -78,6 +81,9 @@ pub struct CoreMon {
     pub c10: C10State,
     pub c11: crate::mon_timers::C11State,
     pub c13: crate::mon_timers::C13State,
+    pub c12: crate::mon_probe::C12State,
+    pub c15: crate::mon_bcast::C15State,
+    pub c16: crate::mon_bcast::C16State,
 }
 
 pub struct CoreSpec {
@@ -158,6 +164,9 @@ impl Spec for CoreSpec {
             c10: C10State::default(),
             c11: Default::default(),
             c13: Default::default(),
+            c12: Default::default(),
+            c15: Default::default(),
+            c16: Default::default(),
         };
         (f, mon)
     }
@@ -286,6 +295,15 @@ impl Spec for CoreSpec {
             crate::mon_timers::c11_step(cx, &info, &mut mon.c11, &self.codec, &self.cfg_of(&cx.pre.f), conn_pre)?;
         }
         mon.conn = conn_after(conn_pre, cx.ev, cx.out);
+        if self.mons.c12 {
+            crate::mon_probe::c12_step(cx, &info, &mut mon.c12, &self.codec, &self.cfg_of(&cx.pre.f), conn_pre, mon.conn)?;
+        }
+        if self.mons.c15 {
+            crate::mon_bcast::c15_step(cx, &info, &mut mon.c15, &self.codec, &self.cfg_of(&cx.pre.f), conn_pre)?;
+        }
+        if self.mons.c16 {
+            crate::mon_bcast::c16_step(cx, &info, &mut mon.c16, &self.codec, &self.cfg_of(&cx.pre.f))?;
+        }
         if self.mons.c13 {
             crate::mon_timers::c13_step(cx, &mut mon.c13, conn_pre, self.policy == TimerPolicy::DeadlineOrder)?;
         }
